@@ -14,6 +14,17 @@ def main():
         print(str(e))
         return 2
     print(f"setup: symx + replay harness built in {t:.1f}s")
+    try:
+        symx.HOOK = True
+        t = symx.build_all()
+        symx.HOOK = False
+        print(f"setup: hook variants (--cfg cgt_verif) built in {t:.1f}s")
+        from . import other
+        other.build_dump()
+        print("setup: pest-dump built")
+    except symx.BuildError as e:
+        print(str(e))
+        return 2
     rc = 0
     for extra in ("shimcheck", "kani_prebuild", "pegsmt_build"):
         try:
